@@ -414,7 +414,12 @@ class CallMixin:
             for k in keys:
                 newarr = fresh("H." + k, HEAP_SORTS[k])
                 if owners is None:
+                    oldarr = st.heap.get(k)
                     st.heap.set(k, newarr)
+                    if k == "$alloc":
+                        # engine invariant: the heap model never frees (allocation only ever stores True), so a callee can only grow the allocated set
+                        r = z3.Const("r!al", Ref)
+                        st.assume(z3.ForAll([r], z3.Implies(z3.Select(oldarr, r), z3.Select(newarr, r)), patterns=[z3.Select(newarr, r)]), name="alloc-monotone")
                 else:
                     r = z3.Const("r!fr", Ref)
                     oldarr = st.heap.get(k)
